@@ -41,6 +41,11 @@ const FORMS = {
   method: { kinds: ['fn'], src: (p) => `${plainKey(p)}() { return 9; }` },
   computedMethod: { kinds: ['fn'], src: (p) => `['${keyOf(p)}']() { return 10; }` },
   asyncMethod: { kinds: ['fn'], src: (p) => `async ${plainKey(p)}() { return 11; }` },
+  generatorMethod: { kinds: ['fn'], src: (p) => `*${plainKey(p)}() { yield 14; }` },
+  asyncGeneratorMethod: { kinds: ['fn'], src: (p) => `async *${plainKey(p)}() { yield 15; }` },
+  // a template literal without substitutions as computed key (statically known or not, the default is the same)
+  templateKey: { kinds: ['val'], dynamic: true, src: (p) => (PROPS[p].lit ? `[\`${keyOf(p)}\`]: ${PROPS[p].lit}` : undefined) },
+  templateKeyEscaped: { kinds: ['val'], dynamic: true, only: ['a', 'q'], src: (p) => (PROPS[p].lit ? `[\`\\u00${keyOf(p).charCodeAt(0).toString(16)}${keyOf(p).slice(1)}\`]: ${PROPS[p].lit}` : undefined) },
   computedIdentKey: { kinds: ['val'], dynamic: true, src: (p) => (PROPS[p].lit ? `[kn_${p}]: ${PROPS[p].lit}` : undefined) },
   computedExprKey: { kinds: ['val'], dynamic: true, src: (p) => (PROPS[p].lit ? `['${keyOf(p)}' + '']: ${PROPS[p].lit}` : undefined) },
 };
@@ -105,7 +110,7 @@ function mkEnv() {
 // value Vue resolves for an absent prop
 function resolved(opt) { return V.resolvePropValue(opt, {}, undefined); }
 function show(v, names) {
-  if (typeof v === 'function') { let r; try { r = v(); } catch (e) { r = { throws: e.name }; } if (r && typeof r.then === 'function') r = 'promise'; return { fn: typeof r === 'function' ? { fnReturningFn: true } : canonValue(r, { names }, []) }; }
+  if (typeof v === 'function') { let r; try { r = v(); } catch (e) { r = { throws: e.name }; } if (r && typeof r.then === 'function') r = 'promise'; else if (r && typeof r[Symbol.asyncIterator] === 'function') r = 'async-generator'; else if (r && typeof r.next === 'function' && typeof r[Symbol.iterator] === 'function') r = { generatorYields: r.next().value }; return { fn: typeof r === 'function' ? { fnReturningFn: true } : canonValue(r, { names }, []) }; }
   if (v && typeof v.then === 'function') return 'promise';
   return canonValue(v, { names }, []);
 }
